@@ -177,6 +177,7 @@ int create_frame_op(World &w, const Op &op) {
     catch (const std::exception &) { return 1; }
     if (invalid || !df) return 0;
     FrameModel m; m.cols = cols;
+    if (w.live.size() < 48) { Kept k; k.kind = 2; k.id = df.id(); k.session = w.session; k.frame = df; w.live["2:" + k.id] = k; }   // the creating handle lives on
     w.frame[df.id()] = m;
     w.cnt.inc("frame.create.cols" + std::to_string(ncols));
     return 0;
